@@ -322,7 +322,7 @@ def run(ctx):
     dist = {"mode": {}, "pure": 0, "histories": 0}
     n_eval = 0
     cases = 0
-    for ci in range(ctx.n(150, 2500)):
+    for ci in range(ctx.n(400, 2500)):
         n_eval += one_history(ctx, rng, N, batch, ci, dist)
         dist["histories"] += 1
         cases += 1
